@@ -703,7 +703,8 @@ def oracle_e2e(sc, got):
         (c0, q0), (c1, q1) = sc["readings"][i], sc["readings"][i + 1]
         dt_true = Fraction(c1 - c0) / Fraction(sc["freq"])
         dt_obs = Fraction(got[i + 1][0]) - Fraction(got[i][0])
-        if not close(dt_true, dt_obs, False) and abs(dt_true - dt_obs) > Fraction(1, 100):
+        # (freq 1024 MHz and an integer host origin: every time is a multiple of 2^-10 us, nothing may round it)
+        if dt_true != dt_obs:
             fails.append({"kind": "e2e_counter_not_at_ts4", "index": i})
             break
         raw = Fraction(12) * ((q1 - q0) % W32) / 512 / dt_obs
